@@ -134,6 +134,7 @@ def one_to_one(ctx) -> None:
         return
     wells_var = getattr(rets[0].elts[0], "id", None)
     tips_var = getattr(rets[0].elts[4], "id", None)
+    rets_nodes = fv.return_nodes()
     for what, names in (("tips", {tips_var, "tips"}), ("wells", {wells_var, "wells"})):
         ok, weak = _strict_guard(fv, names - {None})
         ctx.rep.check(ok, rule, f"{v.qualname}/ascending-{what}", f"{what} that are not strictly ascending raise ValueError",
@@ -148,20 +149,41 @@ def one_to_one(ctx) -> None:
     orders = [flatten_order(nm, c) for ch in (norm_chains(wl) if wl is not None else []) for nm, c in ch if nm in ("flatten", "ravel")]
     ctx.rep.check(bool(orders) and all(o == "F" for o in orders) and wl is not None and is_name(strip_norm(wl), "wells"), rule, f"{v.qualname}/wells-normalised", "wells are flattened column-major like in the tracking",
                   f"the validator normalises the wells as `{show(wl)[:60] if wl is not None else None}` (orders {orders}); the tracking flattens column-major", where=w)
-    len_ok = False
-    vol_len_ok = False
-    for n, test, pol, r in fv.raising_guards():
-        rt = fv.res.resolve(test, n.id)
-        txt = show(test).replace(" ", "")
-        if "len(" in txt and "tips" in txt and wells_var and wells_var in txt:
-            core, p = test, pol
-            while isinstance(core, ast.UnaryOp) and isinstance(core.op, ast.Not):
-                core, p = core.operand, not p
-            if isinstance(core, ast.Compare) and ((all(isinstance(o, ast.Eq) for o in core.ops) and not p) or (len(core.ops) == 1 and isinstance(core.ops[0], ast.NotEq) and p)):
-                if "len(volume)" in txt:
-                    vol_len_ok = True
-                else:
-                    len_ok = True
+    # length agreement: raising terms `len(X) != len(Y)` connect the sequences (guards inside new helpers included)
+    from ..guards import raising_terms
+
+    def seq_name(t):
+        base = strip_norm(t)
+        if isinstance(base, ast.Name):
+            return base.id
+        return None
+
+    edges = []
+    for term, n, cls in raising_terms(fv, rets_nodes[0].id if rets_nodes else None):
+        core = [a for a in term if a.kind != "isinstance"]  # `if isinstance(volume, list):` may enclose the guard
+        if len(core) != 1:
+            continue
+        e, pol = core[0].expr, core[0].pol
+        if isinstance(e, ast.Compare) and len(e.ops) == 1 and call_fname(e.left) == "len" and call_fname(e.comparators[0]) == "len" and e.left.args and e.comparators[0].args:
+            neq = (isinstance(e.ops[0], ast.NotEq) and pol) or (isinstance(e.ops[0], ast.Eq) and not pol)
+            if neq:
+                a_, b_ = seq_name(e.left.args[0]), seq_name(e.comparators[0].args[0])
+                under_list = any(call_fname(x.expr) == "isinstance" for x in term)  # (single-atom terms: no)
+                edges.append((a_, b_, n))
+
+    def connected(x, y, allowed_edges):
+        seen, todo = {x}, [x]
+        while todo:
+            cur = todo.pop()
+            for a_, b_, _ in allowed_edges:
+                for u, w_ in ((a_, b_), (b_, a_)):
+                    if u == cur and w_ not in seen:
+                        seen.add(w_)
+                        todo.append(w_)
+        return y in seen
+
+    len_ok = connected("wells", "tips", [e for e in edges if "volume" not in (e[0], e[1])])
+    vol_len_ok = connected("volume", "tips", edges) and connected("volume", "wells", edges)
     ctx.rep.check(len_ok, rule, f"{v.qualname}/len-wells-tips", "len(wells) == len(tips) is enforced", "the numbers of wells and tips are not required to be equal", where=w)
     ctx.rep.check(vol_len_ok, rule, f"{v.qualname}/len-volumes", "per-tip volume lists must have one entry per tip and well", "a per-tip volume list of a different length is accepted", where=w)
 
@@ -220,50 +242,123 @@ def _doc_ranges(f) -> Dict[str, Tuple[int, int]]:
     return out
 
 
+def _subject_role(t: ast.AST) -> Optional[Tuple[str, str]]:
+    """(owner, role) of a compared term: a parameter -> ('', name); element 0/1 of a <x>_position / <x>_location
+    parameter -> (parameter, 'grid' | 'site')."""
+    if isinstance(t, ast.Name):
+        return ("", t.id)
+    if is_sym(t, "unpack") and isinstance(t.args[0], ast.Name) and isinstance(t.args[1], ast.Constant) and t.args[1].value in (0, 1):
+        return (t.args[0].id, ("grid", "site")[t.args[1].value])
+    if isinstance(t, ast.Subscript) and isinstance(t.value, ast.Name) and isinstance(t.slice, ast.Constant) and t.slice.value in (0, 1):
+        return (t.value.id, ("grid", "site")[t.slice.value])
+    return None
+
+
+def _bounds(fv, before):
+    """{(owner, role): {'lo': (n, cls, node), 'hi': ..., 'typed': bool}} from the raising terms that cover `before`
+    (guards inside new helper functions included).  `x < lo` / `x > hi` raising gives the accepted interval lo..hi."""
+    from ..guards import raising_terms
+
+    out: Dict[Tuple[str, str], Dict[str, object]] = {}
+    for term, n, cls in raising_terms(fv, before):
+        if len(term) != 1:
+            continue
+        a = term[0]
+        e = a.expr
+        if a.kind == "isinstance" and not a.pol:
+            rl = _subject_role(e.args[0])
+            if rl is not None:
+                out.setdefault(rl, {})["typed"] = True
+                out[rl].setdefault("type_cls", cls)
+            continue
+        if not (isinstance(e, ast.Compare) and len(e.ops) == 1 and isinstance(e.ops[0], (ast.Lt, ast.LtE, ast.Gt, ast.GtE))):
+            continue
+        l, r, op = e.left, e.comparators[0], e.ops[0]
+        if isinstance(r, ast.Constant) and not isinstance(l, ast.Constant):
+            subj, c, flipped = l, r.value, False
+        elif isinstance(l, ast.Constant) and not isinstance(r, ast.Constant):
+            subj, c, flipped = r, l.value, True
+        else:
+            continue
+        rl = _subject_role(subj)
+        if rl is None or not isinstance(c, (int, float)) or isinstance(c, bool):
+            continue
+        # normalise to  subj OP c  being the raising condition
+        opname = type(op).__name__
+        if flipped:
+            opname = {"Lt": "Gt", "LtE": "GtE", "Gt": "Lt", "GtE": "LtE"}[opname]
+        if not a.pol:
+            opname = {"Lt": "GtE", "LtE": "Gt", "Gt": "LtE", "GtE": "Lt"}[opname]
+        # raising when subj < c  => accepted lower bound c ; subj <= c => c+1 ; subj > c => upper c ; subj >= c => c-1
+        d = out.setdefault(rl, {})
+        if opname == "Lt":
+            d["lo"] = (c, cls, n)
+        elif opname == "LtE":
+            d["lo"] = (c + 1, cls, n)
+        elif opname == "Gt":
+            d["hi"] = (c, cls, n)
+        elif opname == "GtE":
+            d["hi"] = (c - 1, cls, n)
+    return out
+
+
 def validation_table(ctx, vname: str) -> None:
     rule = "C13.validation-table"
     v = ctx.prog.require_func(vname, rule)
     fv = ctx.fv(v)
-    guards = _interval_guards(fv)
+    rets = fv.return_nodes()
+    if not rets:
+        raise AnalysisInconclusive(rule, v.qualname, "no return")
+    bounds = _bounds(fv, rets[0].id)
     doc = _doc_ranges(v)
-    seen: Dict[str, List] = {}
-    for var, lo, hi, msg, cls, n, local in guards:
-        seen.setdefault(var, []).append((lo, hi, msg, cls, n, local))
-    want_vars = {"prepare_evo_aspirate_dispense_parameters": {"grid": 1, "site": 1}, "prepare_evo_wash_parameters": {"grid": 2, "site": 2, "waste_vol": 1, "waste_delay": 1, "cleaner_vol": 1, "cleaner_delay": 1, "airgap": 1, "airgap_speed": 1, "retract_speed": 1}}[vname]
-    rets = [x for x in fv.cfg.nodes if x.kind == "stmt" and isinstance(x.ast, ast.Return)]
-    for var, count in want_vars.items():
-        got = seen.get(var, [])
-        c = f"{v.qualname}/{var}"
-        if len(got) < count:
-            ctx.rep.refuted(rule, c, f"`{var}` is range-checked {len(got)} time(s), expected {count}: an out-of-range {var} is accepted", where=v.where())
+    if "aspirate" in vname:
+        want = [(("labware_position", "grid"), "grid"), (("labware_position", "site"), "site")]
+    else:
+        want = [(("waste_location", "grid"), "grid"), (("waste_location", "site"), "site"), (("cleaner_location", "grid"), "grid"), (("cleaner_location", "site"), "site")] + \
+            [(("", p), p) for p in ("waste_vol", "waste_delay", "cleaner_vol", "cleaner_delay", "airgap", "airgap_speed", "retract_speed")]
+    for rl, var in want:
+        c = f"{v.qualname}/{rl[0] + '.' if rl[0] else ''}{var}"
+        d = bounds.get(rl, {})
+        w = v.where()
+        lo, hi = d.get("lo"), d.get("hi")
+        if lo is None or hi is None:
+            ctx.rep.refuted(rule, c + "/bounds", f"`{var}`{' of ' + rl[0] if rl[0] else ''} has no {'lower' if lo is None else 'upper'} range check on the way to the return: an out-of-range {var} is accepted", where=w)
             continue
-        for i, (lo, hi, msg, cls, n, local) in enumerate(got):
-            cc = c + (f"#{i}" if count > 1 else "")
-            w = v.where(n.ast)
-            want = RANGES[var]
-            ctx.rep.check((lo, hi) == want and cls == "ValueError", rule, cc + "/bounds", f"{var} must be in {want[0]}..{want[1]}",
-                          f"`{var}` is accepted in {lo}..{hi} (raising {cls}); the property / EVOware limit is {want[0]}..{want[1]}", where=w)
+        wl, wh = RANGES[var]
+        ctx.rep.check((lo[0], hi[0]) == (wl, wh) and lo[1] == "ValueError" and hi[1] == "ValueError", rule, c + "/bounds", f"{var} must be in {wl}..{wh}",
+                      f"`{var}`{' of ' + rl[0] if rl[0] else ''} is accepted in {lo[0]}..{hi[0]} (raising {lo[1]}); the property / EVOware limit is {wl}..{wh}", where=w)
+        # the guard's own message and the docstring must agree with the bounds (where they state numbers)
+        for gnode in {id(lo[2]): lo[2], id(hi[2]): hi[2]}.values():
+            msg = ""
+            tn = gnode
+            if getattr(tn, "kind", "") == "test":
+                for n2, test, pol, r in fv.raising_guards():
+                    if n2.id == tn.id and isinstance(r, ast.Raise) and isinstance(r.exc, ast.Call) and r.exc.args:
+                        a0 = r.exc.args[0]
+                        msg = a0.value if isinstance(a0, ast.Constant) and isinstance(a0.value, str) else "".join(p for p in (template_parts(a0) or []) if isinstance(p, str))
             m = re.search(r"(\d+)\s*-\s*(\d+)", msg)
             if m:
-                ctx.rep.check((int(m.group(1)), int(m.group(2))) == (lo, hi), rule, cc + "/message", "guard and its own error message agree",
-                              f"the guard accepts {lo}..{hi} but its error message says {m.group(1)} - {m.group(2)}: one of them is wrong", where=w)
-            if var in doc:
-                ctx.rep.check(doc[var] == (lo, hi), rule, cc + "/docstring", "guard and docstring agree", f"the guard accepts {lo}..{hi} but the docstring documents {doc[var][0]}-{doc[var][1]}", where=w)
-            ok_dom = bool(rets) and all(fv.cfg.dominates(n.id, r.id) for r in rets)
-            ctx.rep.check(ok_dom, rule, cc + "/every-path", "the range check lies on every path to the return", "the range check can be bypassed", where=w)
-            # int-typed parameters: isinstance(x, int) in the same guard
-            tst = n.ast
-            typed = any(isinstance(s, ast.Call) and call_fname(s) == "isinstance" and is_name(s.args[0], local) for s in ast.walk(tst))
-            ctx.rep.check(typed, rule, cc + "/type", f"{var} is type-checked in the same guard", f"`{var}` is range-checked without a type check (a float/str prints differently in the command)", where=w)
-    # site is emitted zero-based: (grid, site - 1)
+                ctx.rep.check((int(m.group(1)), int(m.group(2))) == (lo[0], hi[0]), rule, c + "/message", "guard and its own error message agree",
+                              f"the guard accepts {lo[0]}..{hi[0]} but its error message says {m.group(1)} - {m.group(2)}: one of them is wrong", where=w)
+        if var in doc:
+            ctx.rep.check(doc[var] == (lo[0], hi[0]), rule, c + "/docstring", "guard and docstring agree", f"the guard accepts {lo[0]}..{hi[0]} but the docstring documents {doc[var][0]}-{doc[var][1]}", where=w)
+        ctx.rep.check(bool(d.get("typed")), rule, c + "/type", f"{var} is type-checked", f"`{var}` is range-checked without a type check (a float/str prints differently in the command)", where=w)
+    # site is emitted zero-based: (grid, site - 1) for every position/location
     n_zero = 0
-    for x in fv.cfg.nodes:
-        if x.kind == "stmt" and isinstance(x.ast, ast.Assign) and isinstance(x.ast.value, ast.Tuple) and len(x.ast.value.elts) == 2 and isinstance(x.ast.targets[0], ast.Name) and ("position" in x.ast.targets[0].id or "location" in x.ast.targets[0].id):
-            a, b = x.ast.value.elts
-            site_names = [s for s in ast.walk(b) if isinstance(s, ast.Name)]
-            ok = isinstance(a, ast.Name) and _role(fv, a, x.id) == "grid" and len(site_names) == 1 and _role(fv, site_names[0], x.id) == "site" and to_poly(b) == Poly.symbol(site_names[0]) - Poly.const(1)
-            n_zero += 1
-            ctx.rep.check(ok, rule, f"{v.qualname}/{x.ast.targets[0].id}", "emitted as (grid, site - 1)", f"`{stmt_key(x.ast)}`: the site must be emitted zero-based as (grid, site - 1)", where=v.where(x.ast))
+    for rn in rets:
+        rt, rat = fv.def_expr(rn.ast.value, rn.id)
+        if not isinstance(rt, ast.Tuple):
+            continue
+        for e in rt.elts:
+            if isinstance(e, ast.Name) and ("position" in e.id or "location" in e.id):
+                t = fv.res.resolve(e, rat)
+                n_zero += 1
+                ok = False
+                if isinstance(t, ast.Tuple) and len(t.elts) == 2:
+                    ra = _subject_role(t.elts[0])
+                    site_terms = [x for x in ast.walk(t.elts[1]) if _subject_role(x) is not None and _subject_role(x)[1] == "site"]
+                    ok = ra is not None and ra[1] == "grid" and ra[0] == e.id and len(site_terms) >= 1 and _subject_role(site_terms[0])[0] == e.id and to_poly(t.elts[1]) == Poly.symbol(site_terms[0]) - Poly.const(1)
+                ctx.rep.check(ok, rule, f"{v.qualname}/{e.id}", "emitted as (grid, site - 1)", f"`{e.id}` is returned as `{show(t)[:60]}`: the site must be emitted zero-based as (grid, site - 1)", where=v.where(rn.ast))
     ctx.rep.floor(rule, f"zero-based site conversions in {vname}", n_zero, 1 if "aspirate" in vname else 2)
     # arm in {0, 1}; binary flags
     flags = ["arm"] + (["fastwash", "low_volume"] if "wash" in vname else [])
